@@ -21,6 +21,16 @@ def run(ctx):
                 jobs.append((exe, ["order", f1, f2, 0], be))
         jobs.append((exe, ["bytes", t], be))
         jobs.append((exe, ["seq", 5 if ctx.thorough else 3], be))
+    # the plain-C back ends once more compiled with clang (compiler-version conditionals, other builtins), and size-optimised
+    for be, cc, opt in [("c64", "clang", "-O2"), ("c32", "clang", "-O2"), ("dxor", "clang", "-O2"), ("generic", "clang", "-O2"), ("c64", "gcc", "-Os"), ("c32", "clang", "-Oz")] + ([("dxor", "gcc", "-Os"), ("generic", "clang", "-Oz"), ("asm", "clang", "-O2")] if ctx.thorough else []):
+        lib = build.build_lib(be, cc=cc, opt=opt)
+        ctx.configs.append(lib["desc"])
+        exe = build.build_prog("c08", ["harness/c08.c", "ref/ref.c"], lib, opt="-O2")
+        lab = "%s-%s%s" % (be, cc, opt)
+        for r in range(12):
+            jobs.append((exe, ["perm", r, 0], lab))
+        jobs.append((exe, ["bytes", 0], lab))
+        jobs.append((exe, ["seq", 3], lab))
     common.parallel(lambda j: common.run_harness(ctx, j[0], j[1], label=j[2]), jobs)
     ctx.assumptions += [
         "each implemented round is a map of algebraic degree <= 2 over GF(2) (true for any AND-depth-1 bit-sliced round), so agreement on all inputs of weight <= 2 "
